@@ -367,7 +367,10 @@ def run_history(run, seed, idx, n_ops, case_sink):
                         key = 'top'
                     else:
                         path, obj = rnd.choice(subs)
-                        gen = rnd.choice([lambda: py4hw.VerilogGenerator(c.live.dut), lambda: py4hw.VerilogGenerator(obj)])()
+                        if c.gen is not None and rnd.random() < 0.4:
+                            gen = c.gen      # the long-lived generator of this circuit also serves requests for sub-blocks as tops
+                        else:
+                            gen = rnd.choice([lambda: py4hw.VerilogGenerator(c.live.dut), lambda: py4hw.VerilogGenerator(obj)])()
                         text = gen.getVerilogForHierarchy(obj)
                         key = 'hier:' + path
                 elif op == 'module_top':
